@@ -196,6 +196,7 @@ theorem rinv_step (m : RaftStore) (h : RInv m) (op : Op) (hv : validOp m op = tr
   | mark i => exact ⟨h.consec, h.terms, h.snapNone, h.snapSome, h.bound⟩
   | cmark i => exact ⟨h.consec, h.terms, h.snapNone, h.snapSome, h.bound⟩
   | reopen => exact h
+  | dump => exact h
 
 theorem rinv_run (m : RaftStore) (h : RInv m) (ops : List Op) (hv : validRun m ops = true) :
     RInv (runM m ops) := by
